@@ -158,7 +158,26 @@ def live_vector(rng: random.Random, now_us: int, manifest: str, *, richness: flo
         q["patch"] = "1"
     if force:
         q.update(force)
+    bound_listed_events(q)
     return q
+
+
+def bound_listed_events(q: dict[str, str], limit: int = 400) -> None:
+    """An out-of-band schedule without a count lists every event of the time-shift window in the manifest: keep
+    window / interval below ``limit`` events (a longer list is legal, but one manifest then costs seconds of CPU and
+    the run trips the wall-clock watchdog instead of finishing deterministically)."""
+    for k in (q.get("events") or "").split(","):
+        if not k or q.get(f"{k}__inband") != "0" or q.get(f"{k}__count", "0") != "0":
+            continue
+        try:
+            ts = int(q.get(f"{k}__timescale", "100"))
+            interval = int(q.get(f"{k}__interval", "1000"))
+            # without an explicit depth the stream's stored default applies (up to 1800 s in the worlds used)
+            depth = int(q["depth"]) if "depth" in q else 1800
+        except ValueError:
+            continue
+        if depth * ts > limit * interval:
+            q[f"{k}__interval"] = str(-(-depth * ts // limit))
 
 
 def qs(q: dict[str, str]) -> str:
